@@ -41,7 +41,7 @@ RULE = (
 ASSUMPTIONS = ["an alias registered again replaces the earlier registration for evaluations that are not already stored"]
 FLOORS = {"histories": (1500, 12000), "uncached_evaluations_exact": (4000, 35000), "cached_evaluations_checked": (4000, 35000),
           "selected_registered_impl": (1000, 10000), "late_registrations_effective": (800, 6000), "interface_member_evaluations": (15000, 50000),
-          "rejected_implementations": (2000, 3000), "reregistrations": (400, 3000)}
+          "rejected_implementations": (2000, 3000), "reregistrations": (400, 3000), "derivative_dispatch_changes": (150, 1200)}
 SHARDS_QUICK = 4
 ALIASES = ["x", "y", "z", 0, 1, None, "a", {"tuple": ["ds1", "default"]}, {"tuple": ["t", 1]}]
 
@@ -125,6 +125,9 @@ def gen_history(r):
             if r.random() < 0.5:
                 o["E"] = r.choice(ALIASES[:7])
             ops.append(["eval", did, o, r.random() < 0.5, r.random() < 0.15])
+            if r.random() < 0.06:
+                # a derivative receives a dispatch of its own: the dataset it derives from is not affected
+                ops.append(["derived_set_dispatch", did, r.choice(["E", "N1"])])
     return {"datasets": datasets, "ops": ops, "reregistrations": reregistered[0]}
 
 
@@ -144,7 +147,15 @@ def run_history(ctx, H, tag):
     late = False
     W = {"history": H, "source": tag}
     derived_P = {"N1": 1}
+    detached = set()  # datasets whose derivative got its own dispatch (the derivative is no longer compared)
     for i, op in enumerate(H["ops"]):
+        if op[0] == "derived_set_dispatch":
+            dobj = G.expr({"k": "ds", "id": op[1], "P": derived_P})
+            dobj.set_dispatch(Option(op[2]))
+            dobj.register("only-on-the-derivative", Option("A", "derivative-only"))
+            detached.add(op[1])
+            ctx.count("derivative_dispatch_changes")
+            continue
         if op[0] == "set_dispatch":
             G.dataset(op[1]).set_dispatch(Option(op[2]))
             program["datasets"][op[1]]["dispatch"] = op[2]
@@ -172,6 +183,8 @@ def run_history(ctx, H, tag):
         _, did, o, cached_mode, derived = op
         spec = {"k": "ds", "id": did}
         obj = G.dataset(did)
+        if derived and did in detached:
+            derived = False
         if derived:
             spec["P"] = derived_P
             obj = G.expr(spec)
